@@ -671,7 +671,12 @@ impl Gen {
             CreateIterDeferred => OpKind::CreateIterDeferred(self.rng.range(0, 3) as u8),
             DeleteNow => OpKind::DeleteNow(if self.rng.chance(1, 8) { self.dead(ex)? } else { self.live(ex)? }),
             DeleteBatch => {
-                let n = self.rng.range(1, 5) as usize;
+                // mostly short batches; sometimes a large one (more than 16 handles)
+                let n = if self.rng.chance(1, 12) {
+                    self.rng.range(17, 30) as usize
+                } else {
+                    self.rng.range(1, 5) as usize
+                };
                 let mut hs = vec![];
                 for _ in 0..n {
                     let h = match self.rng.below(10) {
